@@ -120,4 +120,117 @@ theorem rtp_reparse (r : Rtp) (hi : r.Inv) (hc : r.Canon) (pl : Bytes) :
     rw [hk, ofBytes_peek_append]
     simp only [bind, Out.bind, Out.pure_eq, List.isEmpty_cons, Bool.false_eq_true, if_false]
 
+
+/-! ### what the parser produces is representable -/
+
+theorem beNat_foldl_lt (bs : Bytes) (acc : Nat) :
+    bs.foldl (fun a b => a * 256 + b.toNat) acc < (acc + 1) * 256 ^ bs.length := by
+  induction bs generalizing acc with
+  | nil => simp
+  | cons b bs ih =>
+    simp only [List.foldl_cons, List.length_cons]
+    have h1 := ih (acc * 256 + b.toNat)
+    have hb := b.toNat_lt
+    have h2 : (acc * 256 + b.toNat + 1) * 256 ^ bs.length ≤ ((acc + 1) * 256) * 256 ^ bs.length :=
+      Nat.mul_le_mul_right _ (by omega)
+    calc _ < (acc * 256 + b.toNat + 1) * 256 ^ bs.length := h1
+      _ ≤ ((acc + 1) * 256) * 256 ^ bs.length := h2
+      _ = (acc + 1) * 256 ^ (bs.length + 1) := by rw [Nat.mul_assoc, Nat.pow_succ, Nat.mul_comm 256]
+
+/-- an `n`-byte big-endian value is below `256^n` -/
+theorem beNat_lt (bs : Bytes) : Cursor.beNat bs < 256 ^ bs.length := by
+  have := beNat_foldl_lt bs 0
+  simpa [Cursor.beNat] using this
+
+theorem readBE_lt (c : Cursor) (n v : Nat) (c' : Cursor) (hi : c.Inv) (h : c.readBE n = .ok (v, c')) : v < 256 ^ n := by
+  rcases readBE_safe c n hi with ⟨v2, c2, e, _, _, hn, _, hv⟩ | ⟨e, _⟩
+  · rw [e] at h; injection h with h; injection h with h _; subst h
+    rw [hv]
+    have := beNat_lt (c.mem.take n)
+    have hl : (c.mem.take n).length = n := by
+      have : c.size ≤ c.mem.length := hi
+      simp only [List.length_take]; omega
+    rwa [hl] at this
+  · rw [e] at h; cases h
+
+theorem readWords_bound (n : Nat) (c : Cursor) (hi : c.Inv) (ws : List Nat) (c' : Cursor)
+    (h : Rtp.readWords n c = .ok (ws, c')) : ∀ w ∈ ws, w < 4294967296 := by
+  induction n generalizing c ws c' with
+  | zero => simp only [Rtp.readWords] at h; injection h with h; injection h with h _; subst h; simp
+  | succ n ih =>
+    unfold Rtp.readWords at h
+    rcases readBE_safe c 4 hi with ⟨w, c1, e1, i1, _⟩ | ⟨e1, _⟩
+    · simp only [e1, bind, Out.bind] at h
+      cases e2 : Rtp.readWords n c1 with
+      | ok r =>
+        obtain ⟨ws2, c2⟩ := r
+        simp only [e2, Out.pure_eq] at h
+        injection h with h; injection h with h _; subst h
+        intro x hx
+        rcases List.mem_cons.mp hx with rfl | hx
+        · have := readBE_lt c 4 _ c1 hi e1; omega
+        · exact ih c1 i1 ws2 c2 e2 x hx
+      | throw e => simp only [e2] at h; cases h
+      | fault s => simp only [e2] at h; cases h
+    · simp only [e1, bind, Out.bind] at h; cases h
+
+/-- **the parsing constructor yields representable packets** (so `rtp_reparse` applies to everything it accepts) -/
+theorem rtp_parse_canon (b : Bytes) (r : Rtp) (i : Inner) (h : Rtp.parse b = .ok (r, i)) : r.Canon := by
+  unfold Rtp.parse at h
+  rcases Cursor.read_spec (Cursor.ofBytes b) 12 (Cursor.ofBytes_inv b) with ⟨hd, c1, e1, i1, hl, _⟩ | ⟨e1, _⟩
+  · simp only [e1, bind, Out.bind] at h
+    rcases readWords_safe (Rtp.csrcCount ⟨hd, [], 0, 0, [], 0⟩) c1 i1 with ⟨ws, c2, e2, i2, hwl⟩ | e2
+    · simp only [e2] at h
+      have hwb := readWords_bound _ c1 i1 ws c2 e2
+      cases e3 : Rtp.parseExt (Rtp.extensionBit ⟨hd, [], 0, 0, [], 0⟩ == 1) c2 with
+      | ok q =>
+        obtain ⟨p, l, e, c3⟩ := q
+        simp only [e3] at h
+        have i3 : c3.Inv := by
+          rcases parseExt_safe (Rtp.extensionBit ⟨hd, [], 0, 0, [], 0⟩ == 1) c2 i2 with ⟨_, _, _, c3', e3', i3', _⟩ | e3'
+          · rw [e3] at e3'; injection e3' with e3'; injection e3' with _ e3'; injection e3' with _ e3'; injection e3' with _ e3'
+            subst e3'; exact i3'
+          · rw [e3] at e3'; cases e3'
+        cases e4 : Rtp.parsePadding (Rtp.paddingBit ⟨hd, [], 0, 0, [], 0⟩ == 1) c3 with
+        | ok pd =>
+          simp only [e4] at h
+          have := finish_ok _ _ _ _ h
+          subst this
+          -- facts about the extension block
+          have hext : (Rtp.extensionBit ⟨hd, [], 0, 0, [], 0⟩ ≠ 1 → p = 0 ∧ l = 0 ∧ e = []) ∧ p < 65536 ∧ l < 65536
+              ∧ (∀ w ∈ e, w < 4294967296) := by
+            unfold Rtp.parseExt at e3
+            cases hx : (Rtp.extensionBit ⟨hd, [], 0, 0, [], 0⟩ == 1) with
+            | true =>
+              simp only [hx, if_true] at e3
+              rcases readBE_safe c2 2 i2 with ⟨p', c21, q1, j1, _⟩ | ⟨q1, _⟩
+              · simp only [q1, bind, Out.bind] at e3
+                rcases readBE_safe c21 2 j1 with ⟨l', c22, q2, j2, _⟩ | ⟨q2, _⟩
+                · simp only [q2] at e3
+                  cases q3 : Rtp.readWords l' c22 with
+                  | ok rr =>
+                    obtain ⟨e', c23⟩ := rr
+                    simp only [q3, Out.pure_eq] at e3
+                    injection e3 with e3; injection e3 with hp e3; injection e3 with hl' e3; injection e3 with he _
+                    subst hp; subst hl'; subst he
+                    refine ⟨fun hne => absurd (by simpa using hx) hne, ?_, ?_, readWords_bound _ c22 j2 _ _ q3⟩
+                    · have := readBE_lt c2 2 _ c21 i2 q1; omega
+                    · have := readBE_lt c21 2 _ c22 j1 q2; omega
+                  | throw x => simp only [q3] at e3; cases e3
+                  | fault s => simp only [q3] at e3; cases e3
+                · simp only [q2] at e3; cases e3
+              · simp only [q1, bind, Out.bind] at e3; cases e3
+            | false =>
+              simp only [hx, Bool.false_eq_true, if_false, Out.pure_eq] at e3
+              injection e3 with e3; injection e3 with hp e3; injection e3 with hl' e3; injection e3 with he _
+              subst hp; subst hl'; subst he
+              exact ⟨fun _ => ⟨rfl, rfl, rfl⟩, by omega, by omega, by simp⟩
+          exact ⟨hwb, hext.2.2.2, hext.2.1, hext.2.2.1, hwl.symm, hext.1⟩
+        | throw x => simp only [e4] at h; cases h
+        | fault s => simp only [e4] at h; cases h
+      | throw x => simp only [e3] at h; cases h
+      | fault s => simp only [e3] at h; cases h
+    · simp only [e2] at h; cases h
+  · simp only [e1, bind, Out.bind] at h; cases h
+
 end Tins.Wire.App
